@@ -1,5 +1,6 @@
 import SR.Props.C01
 import SR.Props.C02
+import SR.Proofs.Checker.Termination
 /-!
 # C05 (checker-machine part) — parallel checking is schedule-independent
 
@@ -38,5 +39,33 @@ theorem C05_schedule_independent_verdicts
   have h1 := hR cs hc
   have h2 := hR cs' hc'
   cases hd : hasDisc (run P cs).disc i <;> cases hd' : hasDisc (run P cs').disc i <;> simp_all
+
+/-! ### Termination of the checking logic under every schedule
+
+`Fin P R D`: the model has finitely many reachable states (all listed in `R`) with at most `D` in-boundary successors
+each.  `mu` is an explicit numeric measure of a machine state (ungenerated reachable states × A + pending jobs × B +
+remaining steps of the active workers + 1 while nobody has stopped). -/
+
+/-- **no schedule can keep the checkers busy forever**: whatever the choice list (thread count, interleaving,
+    queue discipline, stale reads, stops), the number of steps that change the state is bounded by `mu` of the
+    initial state. -/
+theorem C05_bounded_work {R : List σ} {D : Nat} (hfin : Fin P R D) (cs : List Choice) :
+    effCount (P := P) (init P.M P.props P.key) cs ≤ mu P R D (init P.M P.props P.key) := by
+  have := effCount_bound (P := P) hfin (init P.M P.props P.key) sinv_init tinv_init cs
+  omega
+
+/-- each single state-changing step strictly decreases the measure (at every reachable machine state) -/
+theorem C05_measure_decreases {R : List σ} {D : Nat} (hfin : Fin P R D) (cs : List Choice) (c : Choice)
+    (hne : step P c (run P cs) ≠ run P cs) : mu P R D (step P c (run P cs)) < mu P R D (run P cs) :=
+  mu_step_lt hfin c (sinv_run (P := P) cs) (tinv_run (P := P) cs) hne
+
+/-- **no deadlock in the checking logic**: as long as something is pending or a worker is busy, some worker has a
+    step that changes the state; equivalently, a state in which no step changes anything is quiescent (`join`
+    has nothing left to wait for). -/
+theorem C05_progress (s : St σ κ) (hstuck : ∀ c, step P c s = s) : Quiescent s := by
+  apply Classical.byContradiction
+  intro hnq
+  obtain ⟨c, hc⟩ := progress (P := P) s hnq
+  exact hc (hstuck c)
 
 end SR.C05M
